@@ -56,7 +56,7 @@ func newC17World() *c17World {
 	_ = ap.AddWriteApprovalCallback(func(m *api.Message) { c.addPending(m) })
 	c.b.Deliver(c.b.BindCall(cliAddr("B", "e1f1", true), srvAddr("L2lc", true), model.FeatureTypeTypeLoadControl))
 	c.b.Deliver(c.b.Datagram(cliAddr("B", "e1f1", true), srvAddr("L2lc", true), model.CmdClassifierTypeWrite, true, nil, model.CmdType{LoadControlLimitListData: limitList(2, 1, 2)}))
-	c.extra = spine.NewEntityLocal(c.w.L, model.EntityTypeTypeCEM, spine.NewAddressEntityType([]uint{4}), 0)
+	c.extra = spine.NewEntityLocal(c.w.L, model.EntityTypeTypeCEM, spine.NewAddressEntityType([]uint{4}), 4*time.Second)
 	c.extra.GetOrAddFeature(model.FeatureTypeTypeMeasurement, model.RoleTypeServer)
 	rt.WaitIdle()
 	return c
@@ -134,6 +134,31 @@ func c17Ops() []c17Op {
 			c.diag.HeartbeatManager().StopHeartbeat()
 			_ = c.diag.HeartbeatManager().StartHeartbeat()
 			_ = c.diag.HeartbeatManager().IsHeartbeatRunning()
+		}},
+		// error paths must release what they took: each call is made twice, the second one would block on a leaked lock
+		{"local:heartbeat-without-feature", func(c *c17World) {
+			hm := c.extra.HeartbeatManager()
+			for i := 0; i < 2; i++ {
+				_ = hm.StartHeartbeat()
+				hm.StopHeartbeat()
+				_ = hm.IsHeartbeatRunning()
+			}
+			d := c.extra.GetOrAddFeature(model.FeatureTypeTypeDeviceDiagnosis, model.RoleTypeServer)
+			d.AddFunctionType(model.FunctionTypeDeviceDiagnosisHeartbeatData, true, false)
+			hm.StopHeartbeat()
+		}},
+		{"B:rejected-registry-calls", func(c *c17World) {
+			for i := 0; i < 2; i++ {
+				// a binding of B exists (B[1]/1 -> L[2]/1): delete it with an inconsistent device part, delete unknown pairs,
+				// request what cannot be granted
+				c.b.Deliver(c.b.UnbindCall(world.FAddr("dA", []uint{1}, 1), srvAddr("L2lc", true)))
+				c.b.Deliver(c.b.UnsubscribeCall(world.FAddr("dA", []uint{1}, 1), srvAddr("L1lc", true)))
+				c.b.Deliver(c.b.UnbindCall(cliAddr("B", "e2f1", true), srvAddr("L2lc", true)))
+				c.b.Deliver(c.b.UnsubscribeCall(cliAddr("B", "e2f1", true), srvAddr("L2lc", true)))
+				c.b.Deliver(c.b.BindCall(cliAddr("B", "e1f3", true), srvAddr("L1lc", true), model.FeatureTypeTypeLoadControl))
+				c.b.Deliver(c.b.SubscribeCall(cliAddr("B", "e1f9", true), srvAddr("L1lc", true), model.FeatureTypeTypeLoadControl))
+			}
+			c.b.Deliver(c.b.BindCall(cliAddr("B", "e2f1", true), srvAddr("L1ms", true), model.FeatureTypeTypeMeasurement))
 		}},
 		{"local:RemoveRemoteDeviceConnection(B)", func(c *c17World) { c.w.L.RemoveRemoteDeviceConnection("B") }},
 		{"local:DatagramForMsgCounter", func(c *c17World) {
